@@ -70,6 +70,8 @@ def r1(ctx, lib):
     b = ctx.need_body(rule, SR)
     if b is None:
         return
+    from ..desugar import desugared
+    b = desugared(lib, b)          # the roll-back may be written as `f(path).map_err(|e| { rename back; e })`
     renames = b.calls(r'FsCommand::unsafe_rename$|^std::fs::rename$')
     fwd, back = [], []
     for c in renames:
